@@ -638,7 +638,7 @@ class TmanaSuppression(Contract):
             rec.clear()
             out = f(seq, diam)
             return dict(rec, out=out, queries=list(getattr(ctx(), "ball_queries", [])))
-        return thunk, {"seq": seq, "diam": diam}
+        return thunk, {"seq": seq, "diam": diam, "lines": it.block_lines}
 
     def post(self, cx, cfg, inp, res):
         q, r = inp["seq"], inp["diam"].t
